@@ -46,6 +46,13 @@ class Drv:
 
     def __init__(self, flavour="plain", cwd=None, env=None, exe="simdrv", timeout=20, preexec=None):
         d = build(flavour)
+        self._own_cwd = None
+        if cwd is None:
+            # never let the library write its output files into /verif itself
+            import uuid
+            cwd = os.path.join(CACHE, "run", "drv-%d-%s" % (os.getpid(), uuid.uuid4().hex[:8]))
+            os.makedirs(cwd, exist_ok=True)
+            self._own_cwd = cwd
         e = dict(os.environ)
         e.setdefault("OMP_NUM_THREADS", "1")
         e["ASAN_OPTIONS"] = "detect_leaks=0:abort_on_error=1"
@@ -158,6 +165,9 @@ class Drv:
                     f.close()
             except Exception:
                 pass
+        if self._own_cwd:
+            shutil.rmtree(self._own_cwd, ignore_errors=True)
+            self._own_cwd = None
 
 
 def run_batch(lines, flavour="plain", cwd=None, timeout=600, exe="simdrv", env=None):
